@@ -251,6 +251,69 @@ func runDirectedMemMerge(c *core.Ctx, name string, seed int64) (*outcome, error)
 	return out, nil
 }
 
+// runDirectedIntroAfterMerge: a batch is prepared against root R (ScorchDisk!Prepare),
+// a merge of the segments holding the old versions is introduced (MIntro), then the
+// batch is introduced on top of the merged root (IntroSegment): the obsoletes of the
+// segment the writer never saw have to be recomputed by the introducer.
+func runDirectedIntroAfterMerge(c *core.Ctx, name string, seed int64) (*outcome, error) {
+	base := c.TempDir("c04i")
+	defer os.RemoveAll(base)
+	wl := sx.Workload{Name: name, Writers: 1, Safe: false, KVConfig: map[string]interface{}{"unsafe_batch": true,
+		"scorchMergePlanOptions": map[string]interface{}{"FloorSegmentSize": 1}}} // passive background planner
+	r, err := sx.Start(filepath.Join(base, "idx"), wl, seed, 0)
+	if err != nil {
+		return nil, err
+	}
+	out := &outcome{Name: name}
+	read := func() {
+		r.Rec.Emit("ReadBegin", map[string]any{"c": 1})
+		docs, err := sx.SearchContent(r.Idx)
+		if err != nil {
+			r.Rec.Emit("ReadError", map[string]any{"c": 1, "err": err.Error()})
+			return
+		}
+		r.Rec.Emit("ReadEnd", map[string]any{"c": 1, "docs": docs})
+		out.Reads++
+	}
+	for _, id := range []string{"a", "b", "c"} {
+		if _, err := r.Submit(sx.BatchSpec{W: 1, Puts: []string{id}, Dels: []string{}}); err != nil {
+			_ = r.Close()
+			return nil, err
+		}
+		r.Quiesce(20 * time.Second) // one file segment per batch
+	}
+	read()
+	r.SetHolds([]sx.HoldRule{{Point: "batch.send", Until: "IntroMerge", Count: 1, Timeout: 10 * time.Second, Prob: 1, Once: true}})
+	done := make(chan error, 1)
+	go func() { // update of a, delete of b (seed-dependent: the other way round)
+		bs := sx.BatchSpec{W: 1, Puts: []string{"a"}, Dels: []string{"b"}}
+		if seed%2 == 1 {
+			bs = sx.BatchSpec{W: 1, Puts: []string{"b"}, Dels: []string{"a"}}
+		}
+		_, err := r.Submit(bs)
+		done <- err
+	}()
+	parked := r.WaitParked("batch.send", 1, 10*time.Second)
+	_ = r.ForceMerge() // the segments holding a, b, c become one new segment
+	if err := <-done; err != nil {
+		_ = r.Close()
+		return nil, err
+	}
+	read()
+	r.Quiesce(20 * time.Second)
+	read()
+	r.SetHolds(nil)
+	if err := r.Close(); err != nil {
+		return nil, err
+	}
+	if parked {
+		c.AddExtra("directed_runs_with_a_batch_introduced_after_a_merge_it_did_not_see", 1)
+	}
+	out.Records = records(r.Rec.Events())
+	out.Scorch = sx.ScorchRecords(r.Rec.Events())
+	return out, nil
+}
+
 // runScheduled executes one TLC-generated schedule; the marker document is added
 // to every batch, a search is issued after every step and a low-level reader is
 // held and re-read across steps.
@@ -399,6 +462,13 @@ func run(c *core.Ctx) error {
 	}
 	for k := 0; k < c.Pick(3, 8); k++ {
 		o, err := runDirectedMemMerge(c, fmt.Sprintf("directed-memmerge-units-overtaken-%d", k), c.Seed*10+int64(k))
+		if err != nil {
+			return err
+		}
+		outs = append(outs, o)
+	}
+	for k := 0; k < c.Pick(2, 6); k++ {
+		o, err := runDirectedIntroAfterMerge(c, fmt.Sprintf("directed-batch-introduced-after-unseen-merge-%d", k), c.Seed*10+int64(k))
 		if err != nil {
 			return err
 		}
